@@ -12,7 +12,7 @@
    as an oracle that tiles the buffer, C03), the C glue and the keyboard-layout tables, wall-clock time. *)
 From Coq Require Import NArith List Bool Arith Lia.
 From LC Require Import Base.Lib Gen.Keyboard_gen Model.Keyboard Gen.Editor_gen Model.Syllable Model.Composition Model.Conversion Model.Editor Model.EditorRun
-     Model.EdInst Proofs.CompositionProofs Proofs.EdInstProofs Proofs.EditorInv Proofs.EditorWitness Proofs.EditorSelect Proofs.NoPanic Proofs.KeyEventsOk Proofs.GraphPath Model.Engine Proofs.EngineProofs Proofs.SimpleEngineProofs Model.CapiKeys Proofs.CapiKeysProofs.
+     Model.EdInst Proofs.CompositionProofs Proofs.EdInstProofs Proofs.EditorInv Proofs.EditorWitness Proofs.EditorSelect Proofs.NoPanic Proofs.KeyEventsOk Proofs.GraphPath Model.Engine Proofs.EngineProofs Proofs.SimpleEngineProofs Model.CapiKeys Model.CapiConfig Model.CapiRun Proofs.CapiKeysProofs.
 From Coq Require Import ZArith Permutation.
 Import ListNotations.
 Open Scope nat_scope.
@@ -349,8 +349,10 @@ Print Assumptions C01_no_history_panics_or_hangs_all_layouts_modelled_engines.
    chewing_handle_CtrlNum / chewing_handle_Numlock with ANY int (`key as u8`), chewing_set_KBType with ANY int at
    any moment (the 17 rows of the generated KB table; anything else selects the default), chewing_set_selKey,
    chewing_cand_choose_by_index with ANY int, chewing_cand_open / close, chewing_commit_preedit_buf,
-   chewing_clean_preedit_buf / clean_bopomofo_buf, chewing_Reset, and any editor operation (options, engine,
-   user phrases) returns - no Panic, no OutOfFuel - and keeps the context invariant.  The events handed to the
+   chewing_clean_preedit_buf / clean_bopomofo_buf, chewing_Reset, chewing_config_set_int with ANY option name and ANY
+   int (the option arms and value tables are the regenerated ones of Model/Config.v; the options they produce are
+   installed on the editor model), chewing_userphrase_add / remove with ANY two strings (the Bopomofo string is split
+   and parsed by the syllable model), and any editor operation returns - no Panic, no OutOfFuel - and keeps the context invariant.  The events handed to the
    editor are the ones the eight keyboards build (complete sweeps in KeyEventsOk / KeyboardProofs). *)
 Theorem C01_no_sequence_of_C_calls_panics_or_hangs : forall ss d ab t0 ops,
   ss_good ss -> ss_cursor ss = None -> md_fine d -> Forall cop_fine ops ->
